@@ -2,7 +2,15 @@
 
 Same ops, same canonical answers as lean/A5/Model/Driver.lean.
 """
-import os, sys, struct
+import os, sys, struct, signal, threading
+
+OP_TIMEOUT = float(os.environ.get('VERIF_OP_TIMEOUT', '30'))
+
+class OpTimeout(BaseException):
+    pass
+
+def _on_alarm(signum, frame):
+    raise OpTimeout()
 
 REPO = os.environ.get('A5_REPO', '/repo')
 
@@ -42,12 +50,24 @@ class PyDriver:
         t = line.split()
         if not t:
             return 'bad-op'
+        timed = threading.current_thread() is threading.main_thread()
+        if timed:
+            old = signal.signal(signal.SIGALRM, _on_alarm)
+            # after three calls that did not return, later ones get two seconds (a hanging mutation must not stall the whole check)
+            signal.setitimer(signal.ITIMER_REAL, OP_TIMEOUT if getattr(self, 'timeouts', 0) < 3 else min(OP_TIMEOUT, 2.0))
         try:
             return self.dispatch(t)
+        except OpTimeout:
+            self.timeouts = getattr(self, 'timeouts', 0) + 1
+            return 'err Timeout'       # the call did not return: the model always answers (its loops carry fuel)
         except RecursionError:
             raise
         except Exception as e:  # noqa
             return 'err ' + err_name(e)
+        finally:
+            if timed:
+                signal.setitimer(signal.ITIMER_REAL, 0)
+                signal.signal(signal.SIGALRM, old)
 
     def dispatch(self, t):
         op = t[0]
